@@ -95,3 +95,63 @@ theorem runC_moves (rel : Bool) (who : Nat → Caller) (cr : Nat → Bool) (s : 
     simpa using ih { s with st := step true who cr s.st j } hg
 
 end PlumVerif.Entry
+
+namespace PlumVerif.Entry
+
+/-! the replay the driver prints (`replayC`) is a run of `stepC`: the invariant holds in every state it goes through -/
+
+theorem inv_foldC (who : Nat → Caller) (cr : Nat → Bool) (f : StC → Nat → MvC) (js : List Nat) (s : StC) (h : Inv who cr s.st) :
+    Inv who cr (js.foldl (fun s j => stepC true who cr s (f s j)) s).st := by
+  induction js generalizing s with
+  | nil => exact h
+  | cons j js ih => exact ih _ (inv_stepC who cr s _ h)
+
+theorem inv_passC (who : Nat → Caller) (cr : Nat → Bool) (r : ReplayC) (h : Inv who cr r.s.st) :
+    Inv who cr (passC who cr r).s.st := by
+  unfold passC
+  generalize List.range r.n = js
+  induction js generalizing r with
+  | nil => exact h
+  | cons j js ih =>
+    simp only [List.foldl_cons]
+    by_cases c : isCreating (r.s.st.pc j) = true
+    · simpa [c] using ih r h
+    · simpa [c] using ih { r with s := stepC true who cr r.s (.move j) } (inv_stepC who cr r.s _ h)
+
+theorem inv_settleC (who : Nat → Caller) (cr : Nat → Bool) (fuel : Nat) (r r' : ReplayC) (h : Inv who cr r.s.st)
+    (e : settleC who cr fuel r = some r') : Inv who cr r'.s.st := by
+  induction fuel generalizing r with
+  | zero =>
+    unfold settleC at e
+    by_cases q : quietC who cr r = true
+    · simp [q] at e; subst e; exact h
+    · simp [q] at e
+  | succ n ih =>
+    unfold settleC at e
+    by_cases q : quietC who cr r = true
+    · simp [q] at e; subst e; exact h
+    · simp [q] at e; exact ih _ (inv_passC who cr r h) e
+
+theorem inv_applyEvC (consumers : Nat) (cs : Nat → Caller × Bool) (cr : Nat → Bool) (r r' : ReplayC) (ev : EvC)
+    (h : Inv (fun j => (cs j).1) cr r.s.st) (e : applyEvC consumers cs cr r ev = some r') :
+    Inv (fun j => (cs j).1) cr r'.s.st := by
+  cases ev with
+  | feed a m => simp only [applyEvC] at e; exact inv_settleC _ cr _ { r with n := r.n + m } r' h e
+  | user a => simp only [applyEvC] at e; exact inv_settleC _ cr _ { r with n := r.n + 1, users := r.n :: r.users } r' h e
+  | get a => simp only [applyEvC] at e; exact inv_settleC _ cr _ { r with n := r.n + 1 } r' h e
+  | reconnect => simp only [applyEvC] at e; exact inv_settleC _ cr _ r r' h e
+  | release =>
+    simp only [applyEvC] at e
+    split at e
+    · exact inv_settleC _ cr _ _ r' (inv_stepC _ cr r.s _ h) e
+    · cases e
+  | cancelUser =>
+    simp only [applyEvC] at e
+    split at e
+    · exact inv_settleC _ cr _ _ r' (inv_stepC _ cr r.s _ h) e
+    · cases e
+  | cancelTasks =>
+    simp only [applyEvC] at e
+    exact inv_settleC _ cr _ _ r' (inv_foldC _ cr (fun _ j => .cancel j) _ r.s h) e
+
+end PlumVerif.Entry
